@@ -1,17 +1,405 @@
-//! Engine `chain` — placeholder (not written yet).
+//! Engine `chain` (C04): stacks laid out by the calling convention (frame-pointer chains), described
+//! by STACK CFI records, or findable only by scanning, for all context kinds — the generated call
+//! chain is the oracle for `minidump_unwind::walk_stack`, and the Lean model walks the same case.
+//!
+//! case line:  chain <technique> exp:<ret,sp,fp|-,module,function>|... <fields of a `walk` case>
+//! The model is asked twice: `walk …` (frame-by-frame correspondence, through `model_request`) and
+//! `chain pre …` (the decidable precondition `Pre` of the C04 theorems, evaluated on the generated
+//! case): a case outside the precondition is counted (`pre-rejected`) and not used as an oracle.
+
+use super::walk::*;
 use crate::common::*;
+use minidump::*;
+use minidump_unwind::FrameTrust;
+use std::cell::RefCell;
 
 pub struct Chain;
+
+const TECHS: &[&str] = &["fp", "cfi", "scan"];
+
+#[derive(Clone, Debug)]
+struct Exp {
+    ret: u64,
+    sp: u64,
+    fp: Option<u64>,
+    module: usize,
+    func: String,
+}
+
+fn render_exp(e: &[Exp]) -> String {
+    if e.is_empty() {
+        return "exp:-".into();
+    }
+    format!(
+        "exp:{}",
+        e.iter()
+            .map(|x| format!("{},{},{},{},{}", x.ret, x.sp, x.fp.map(|v| v.to_string()).unwrap_or_else(|| "-".into()), x.module, x.func))
+            .collect::<Vec<_>>()
+            .join("|")
+    )
+}
+
+fn parse_exp(s: &str) -> Option<Vec<Exp>> {
+    let body = s.strip_prefix("exp:")?;
+    if body == "-" {
+        return Some(vec![]);
+    }
+    body.split('|')
+        .map(|f| {
+            let p: Vec<&str> = f.split(',').collect();
+            if p.len() != 5 {
+                return None;
+            }
+            Some(Exp {
+                ret: p[0].parse().ok()?,
+                sp: p[1].parse().ok()?,
+                fp: if p[2] == "-" { None } else { Some(p[2].parse().ok()?) },
+                module: p[3].parse().ok()?,
+                func: p[4].to_string(),
+            })
+        })
+        .collect()
+}
+
+thread_local! {
+    static MODEL: RefCell<Option<Option<Model>>> = const { RefCell::new(None) };
+}
+
+/// ask this worker's own model process (path taken from the harness's `--model` argument)
+fn ask_model(req: &str) -> Option<String> {
+    MODEL.with(|m| {
+        let mut m = m.borrow_mut();
+        if m.is_none() {
+            let args: Vec<String> = std::env::args().collect();
+            let path = args.iter().position(|a| a == "--model").and_then(|i| args.get(i + 1).cloned()).unwrap_or_else(|| "/verif/lean/.lake/build/bin/mdmodel".into());
+            *m = Some(Model::spawn_opt(&path));
+        }
+        m.as_mut().unwrap().as_mut().map(|model| model.ask(req))
+    })
+}
+
+fn func_name(world: &World, f: &GFunc) -> String {
+    // name of the FUNC record that starts at f.start
+    let (mb, _, _) = &world.mods[f.module];
+    for r in &world.syms[f.module].1 {
+        if let Rec::F { addr, name, .. } = r {
+            if mb + addr == f.start {
+                return name.clone();
+            }
+        }
+    }
+    "?".into()
+}
+
+fn fp_capable(arch: &str, os: &str) -> bool {
+    matches!(arch, "x86" | "amd64" | "arm64" | "arm64old") || (arch == "arm" && os == "ios")
+}
+
+/// a return address into `f` whose lookup address (`ret - adj`) is still inside `f`
+fn ret_into(rng: &mut Rng, arch: &str, f: &GFunc) -> u64 {
+    f.start + adj_of(arch) + rng.below(f.size - adj_of(arch))
+}
+
+fn gen_chain(rng: &mut Rng, tech: &str, arch: &str, os: &str) -> Option<String> {
+    let p = ptr_of(arch);
+    let share = if tech == "cfi" { 80 } else { 0 };
+    let (mut world, mut funcs) = tidy_world(rng, arch, share);
+    let leaf_first = tech == "cfi" && !matches!(arch, "x86" | "amd64") && rng.chance(1, 3);
+    if leaf_first {
+        // a leaf function: return address in the link register, no stack of its own
+        let (mb, msz, _) = world.mods[0].clone();
+        let at = msz as u64;
+        let lr = match arch {
+            "mips32" | "mips64" => "$ra",
+            _ => "lr",
+        };
+        world.syms[0].1.push(Rec::F { addr: at, size: 64, psize: 0, name: "leaf".into() });
+        world.syms[0].1.push(Rec::C { addr: at, size: 64, rules: format!(".cfa: {} 0 + .ra: {}", reg_tok(arch, sp_name(arch)), lr) });
+        world.mods[0].1 = msz + 64;
+        // keep modules disjoint
+        if world.mods.len() > 1 && mb + msz as u64 + 64 > world.mods[1].0 {
+            return None;
+        }
+        funcs.push(GFunc { module: 0, start: mb + at, size: 64, cfi_words: Some(0), saves_fp: false });
+    }
+    let with_cfi: Vec<usize> = funcs.iter().enumerate().filter(|(_, f)| matches!(f.cfi_words, Some(n) if n > 0)).map(|x| x.0).collect();
+    let saving: Vec<usize> = with_cfi.iter().copied().filter(|i| funcs[*i].saves_fp).collect();
+    let without: Vec<usize> = funcs.iter().enumerate().filter(|(_, f)| f.cfi_words.is_none()).map(|x| x.0).collect();
+    let maxd = *rng.pick(&[2u64, 6, 16, 64]);
+    let depth = 1 + rng.below(maxd);
+    let base: u64 = ((0x2000_0000 + rng.below(0x3000_0000)) & !(p - 1)) + if p == 8 && rng.chance(1, 3) { 0x7fff_0000_0000 } else { 0 };
+    let mut words: Vec<u64> = vec![];
+    let put = |words: &mut Vec<u64>, i: u64, v: u64| {
+        if words.len() <= i as usize {
+            words.resize(i as usize + 1, 0);
+        }
+        words[i as usize] = v;
+    };
+    let addr = |i: u64| base + i * p;
+    let mut exp: Vec<Exp> = vec![];
+    let mut regs: Vec<(String, u64)> = vec![];
+    let s0 = rng.below(4);
+    match tech {
+        "fp" => {
+            if !fp_capable(arch, os) {
+                return None;
+            }
+            let win = arch == "amd64" && os == "windows";
+            let f0 = s0 + rng.below(8);
+            let slack0 = if win { 16 * rng.below((f0 * p / 16).min(15) + 1) } else { 0 };
+            let ip0 = { let f = &funcs[rng.below(funcs.len() as u64) as usize]; f.start + rng.below(f.size) };
+            regs.push((ip_name(arch).into(), ip0));
+            regs.push((sp_name(arch).into(), addr(s0)));
+            regs.push((fp_name(arch).into(), addr(f0) - slack0));
+            let mut f = f0;
+            for _ in 0..depth {
+                let k = rng.below(funcs.len() as u64) as usize;
+                let ret = ret_into(rng, arch, &funcs[k]);
+                let gap = rng.below(8) + if win { rng.below(30) } else { 0 };
+                let next_f = f + 2 + gap;
+                let slack = if win { 16 * rng.below((gap * p / 16).min(15) + 1) } else { 0 };
+                put(&mut words, f, addr(next_f) - slack);
+                put(&mut words, f + 1, ret);
+                exp.push(Exp { ret, sp: addr(f + 2), fp: Some(addr(next_f) - slack), module: funcs[k].module, func: func_name(&world, &funcs[k]) });
+                f = next_f;
+            }
+            // the outermost record: saved fp = 0, return address = 0; then zeros to the end
+            put(&mut words, f + 1 + 2 + rng.below(8), 0);
+        }
+        "cfi" => {
+            if with_cfi.is_empty() || without.is_empty() {
+                return None;
+            }
+            // the frame below the outermost one must leave fp = 0 behind (so that the frame-pointer
+            // unwinder cannot continue at the end): either fp is 0 from the start and never saved,
+            // or the last CFI function saves it
+            let zero_fp = saving.is_empty() || rng.chance(1, 2);
+            let plain: Vec<usize> = with_cfi.iter().copied().filter(|i| !funcs[*i].saves_fp).collect();
+            if zero_fp && plain.is_empty() {
+                return None;
+            }
+            let pick_cfi = |rng: &mut Rng, last: bool| -> usize {
+                if zero_fp {
+                    *rng.pick(&plain)
+                } else if last {
+                    *rng.pick(&saving)
+                } else {
+                    *rng.pick(&with_cfi)
+                }
+            };
+            let mut cur = if leaf_first { funcs.len() - 1 } else { pick_cfi(rng, depth == 1) };
+            let ip0 = funcs[cur].start + rng.below(funcs[cur].size);
+            let mut fp_now: u64 = if zero_fp { 0 } else { addr(s0 + rng.below(16)) };
+            regs.push((ip_name(arch).into(), ip0));
+            regs.push((sp_name(arch).into(), addr(s0)));
+            regs.push((fp_name(arch).into(), fp_now));
+            let mut s = s0;
+            for i in 0..depth {
+                let last = i + 1 == depth;
+                let next = if last { *rng.pick(&without) } else { pick_cfi(rng, i + 2 == depth) };
+                let ret = ret_into(rng, arch, &funcs[next]);
+                let n = funcs[cur].cfi_words.unwrap();
+                if n == 0 {
+                    // leaf: return address in the link register
+                    let lr = match arch {
+                        "mips32" | "mips64" => "ra",
+                        _ => "lr",
+                    };
+                    regs.push((lr.into(), ret));
+                    if last && fp_now != 0 {
+                        return None;
+                    }
+                } else {
+                    put(&mut words, s + n - 1, ret);
+                    if funcs[cur].saves_fp {
+                        fp_now = if last { 0 } else { addr(s + n + rng.below(8)) };
+                        put(&mut words, s + n - 2, fp_now);
+                    }
+                    s += n;
+                }
+                exp.push(Exp { ret, sp: addr(s), fp: Some(fp_now), module: funcs[next].module, func: func_name(&world, &funcs[next]) });
+                cur = next;
+            }
+            put(&mut words, s + 2 + rng.below(8), 0);
+        }
+        _ => {
+            let ip0 = { let f = &funcs[rng.below(funcs.len() as u64) as usize]; f.start + rng.below(f.size) };
+            regs.push((ip_name(arch).into(), ip0));
+            regs.push((sp_name(arch).into(), addr(s0)));
+            regs.push((fp_name(arch).into(), 0));
+            let mut s = s0;
+            for i in 0..depth {
+                let k = rng.below(funcs.len() as u64) as usize;
+                let ret = ret_into(rng, arch, &funcs[k]);
+                let junk = match (arch, i) {
+                    ("mips32", 0) => rng.below(200),
+                    ("mips32", _) => 4 + rng.below(200),
+                    ("mips64", _) => rng.below(120),
+                    (_, 0) => rng.below(160),
+                    _ => rng.below(40),
+                };
+                // junk words: zero or small integers (never an address inside a module)
+                for j in 0..junk {
+                    if rng.chance(1, 4) {
+                        put(&mut words, s + j, 1 + rng.below(4000));
+                    }
+                }
+                put(&mut words, s + junk, ret);
+                s += junk + 1;
+                exp.push(Exp { ret, sp: addr(s), fp: None, module: funcs[k].module, func: func_name(&world, &funcs[k]) });
+            }
+            put(&mut words, s + 2 + rng.below(8), 0);
+        }
+    }
+    let mut bytes = vec![0u8; words.len() * p as usize];
+    for (i, w) in words.iter().enumerate() {
+        put_word(&mut bytes, i as u64, p, *w);
+    }
+    let case = Case {
+        engine: "chain".into(),
+        extra: vec![tech.to_string(), render_exp(&exp)],
+        arch: arch.into(),
+        os: os.into(),
+        regs,
+        valid: None,
+        stack: Some((base, bytes)),
+        mods: world.mods,
+        syms: world.syms,
+        symraw: vec![],
+    };
+    Some(case.render())
+}
+
+fn want_trust(tech: &str) -> FrameTrust {
+    match tech {
+        "fp" => FrameTrust::FramePointer,
+        "cfi" => FrameTrust::CallFrameInfo,
+        _ => FrameTrust::Scan,
+    }
+}
 
 impl Engine for Chain {
     fn name(&self) -> &'static str {
         "chain"
     }
     fn rule(&self) -> String {
-        "not implemented".into()
+        "case = a generated call chain (depth 1..64) laid out on a stack for one technique per walk: frame-pointer chains (x86, amd64 incl. the Windows 16-byte-step slack of up to 240 bytes, arm64 both layouts, arm on iOS), canonical STACK CFI (`.cfa: $sp N + .ra: .cfa -W + ^ [fp: .cfa -2W + ^]`, optional leaf first frame `.ra: lr` on ARM/ARM64/MIPS) on all seven context kinds/modes, or return addresses findable only by scanning (junk words within the 40/160-word windows, MIPS 4-word skip); random non-overlapping modules and FUNC layouts, 5 OSes. Oracle: walk_stack's frames = the generated chain (count, return address, sp, technique label, recovered frame pointer, module, function) when the Lean precondition `Pre` accepts the case; model compared frame by frame. non-trivial = chain depth >= 2; distinct = distinct case line".into()
     }
-    fn generate(&self, _tier: Tier, _rng: &mut Rng, _emit: &mut dyn FnMut(String)) {}
-    fn exec(&self, _case: &str) -> ImplResult {
-        ImplResult::default()
+
+    fn generate(&self, tier: Tier, rng: &mut Rng, emit: &mut dyn FnMut(String)) {
+        let n = if tier == Tier::Quick { 500 } else { 12000 };
+        for tech in TECHS {
+            for arch in ARCHS {
+                for i in 0..n {
+                    let os = match (*tech, *arch) {
+                        ("fp", "arm") => "ios",
+                        _ => OSES[(i % OSES.len() as u64) as usize],
+                    };
+                    for _ in 0..8 {
+                        if let Some(c) = gen_chain(rng, tech, arch, os) {
+                            emit(c);
+                            break;
+                        }
+                        if *tech == "fp" && !fp_capable(arch, os) {
+                            break;
+                        }
+                    }
+                }
+            }
+        }
+    }
+
+    fn exec(&self, case: &str) -> ImplResult {
+        let mut res = ImplResult::default();
+        let Some(c) = Case::parse(case, 2) else {
+            res.out = "bad-op".into();
+            return res;
+        };
+        let tech = c.extra[0].clone();
+        let Some(exp) = parse_exp(&c.extra[1]) else {
+            res.out = "bad-op".into();
+            return res;
+        };
+        if !TECHS.contains(&tech.as_str()) {
+            res.out = "bad-op".into();
+            return res;
+        }
+        res.tags.push(format!("tech:{tech}"));
+        res.tags.push(format!("arch:{}", c.arch));
+        res.tags.push(format!("depth:{}", match exp.len() { 0..=1 => "1", 2..=4 => "2-4", 5..=16 => "5-16", _ => "17-64" }));
+        res.nontrivial = exp.len() >= 2;
+        let stack = match run_walk(&c) {
+            Err(msg) => {
+                res.out = "PANIC".into();
+                res.oracle.push(("walk-panics".into(), msg));
+                return res;
+            }
+            Ok(s) => s,
+        };
+        res.out = show_stack(&c, &stack);
+        // C05's invariant holds of every walk
+        res.oracle = wf_oracle(&c, &stack);
+        // the generated chain is an oracle only inside the theorems' precondition
+        let pre = ask_model(&format!("chain pre {}", case.strip_prefix("chain ").unwrap_or(case)));
+        match pre.as_deref() {
+            Some("1") | None => {}
+            Some("0") => {
+                res.tags.push("pre-rejected".into());
+                return res;
+            }
+            Some(other) => {
+                res.oracle.push(("pre-query-failed".into(), other.to_string()));
+                return res;
+            }
+        }
+        res.tags.push("pre-accepted".into());
+        let fs = &stack.frames;
+        let arch = c.arch.clone();
+        let mut mismatch = |what: String| res.oracle.push((format!("chain-mismatch-{tech}-{arch}"), what));
+        if fs.len() != exp.len() + 1 {
+            mismatch(format!("{} frames for a chain of {} calls (expected {})", fs.len(), exp.len(), exp.len() + 1));
+        }
+        for (i, e) in exp.iter().enumerate() {
+            let Some(f) = fs.get(i + 1) else { break };
+            if f.resume_address != e.ret {
+                mismatch(format!("frame {}: return address {} expected {}", i + 1, f.resume_address, e.ret));
+                break;
+            }
+            if f.context.get_stack_pointer() != e.sp {
+                mismatch(format!("frame {}: sp {} expected {}", i + 1, f.context.get_stack_pointer(), e.sp));
+                break;
+            }
+            if f.trust != want_trust(&tech) {
+                mismatch(format!("frame {}: found by {} expected {}", i + 1, f.trust.as_str(), want_trust(&tech).as_str()));
+                break;
+            }
+            if let Some(want) = e.fp {
+                let got = f.context.get_register(fp_name(&c.arch));
+                if got != Some(want) {
+                    mismatch(format!("frame {}: recovered {} = {:?} expected {}", i + 1, fp_name(&c.arch), got, want));
+                    break;
+                }
+            }
+            let m = f.module.as_ref().and_then(|m| c.mods.iter().position(|(b, _, n)| *b == m.base_address() && *n == m.name));
+            if m != Some(e.module) || f.function_name.as_deref() != Some(e.func.as_str()) {
+                mismatch(format!("frame {}: module {:?} function {:?} expected module {} function {}", i + 1, m, f.function_name, e.module, e.func));
+                break;
+            }
+        }
+        res
+    }
+
+    fn model_request(&self, case: &str) -> Option<String> {
+        // the model walks the very same inputs: drop the technique and expectation fields
+        let f: Vec<&str> = case.splitn(4, ' ').collect();
+        if f.len() == 4 {
+            Some(format!("walk {}", f[3]))
+        } else {
+            None
+        }
+    }
+
+    fn shrink(&self, case: &str, _still_fails: &dyn Fn(&str) -> bool) -> String {
+        case.to_string()
     }
 }
